@@ -159,6 +159,16 @@ def expr(rng, depth, hashable=False):
 
 def gen(rng, tier, shape=None):
     depth = rng.choice([0, 1, 2, 2] if tier == "quick" else [0, 1, 2, 3])
+    if rng.random() < 0.08:
+        # a set that is not orderable (mixed element types) and contains sets of strings: always run across hash seeds
+        parts = [atom(rng, True, rng.choice(["int", "str"]))[0] for _ in range(rng.randint(1, 2))] + ["None"][:rng.randint(0, 1)]
+        for _ in range(rng.randint(2, 3)):
+            letters = rng.sample(["x", "y", "z", "w", "v", "u"], rng.randint(2, 3))
+            parts.append("frozenset({" + ", ".join(repr(c) for c in letters) + "})")
+        parts = list(dict.fromkeys(parts))
+        src = ("frozenset({%s})" if rng.random() < 0.3 else "{%s}") % ", ".join(parts)
+        return {"op": "eq", "vals": [src], "tags": ["frozenset", "set", "setmode:nonorderable-nested"],
+                "placement": rng.choice(["assert", "module"]), "seeds": True}
     op = rng.choice(["eq", "eq", "eq", "eq", "le", "ge", "in", "getitem"])
     if op in ("le", "ge"):
         fam = rng.choice(["int", "str"])
